@@ -67,7 +67,11 @@ def run(ctx):
         events = []
         for inp, r in zip(inputs, res):
             if "out" in r:
-                events.append({"id": inp["id"], "bytes": inp["bytes"], "out": r["out"]})
+                # a large input that every entry point refused: only its length matters to the specification's clauses
+                if len(inp["bytes"]) > 4096 and all(o.get("outcome") == "err" for o in r["out"].values()):
+                    events.append({"id": inp["id"], "bytes": [], "len": len(inp["bytes"]), "out": r["out"]})
+                else:
+                    events.append({"id": inp["id"], "bytes": inp["bytes"], "out": r["out"]})
             else:  # the worker process died or hung on this input: every entry point is charged with it
                 o = {"outcome": r["outcome"], "max_alloc": 0, "reser": "none", "ms": 0}
                 events.append({"id": inp["id"], "bytes": inp["bytes"], "out": {"process": o, "bin_le": o}, "died": r})
@@ -97,7 +101,7 @@ def run(ctx):
                 ctx.viol.append(sig) if not any(all(sig.get(a) == b for a, b in kf["match"].items()) for kf in ctx.known) else None
                 continue
             seen.add(key)
-            ctx.violation(sig, {"id": ev["id"], "bytes": ev["bytes"], "entry": entry, "observed": o, "profile": prof})
+            ctx.violation(sig, {"id": ev["id"], "bytes": inputs[i - 1]["bytes"], "entry": entry, "observed": o, "profile": prof})
         ctx.extra["must_reject_pairs_%s" % prof] = rep[0]["must_reject"]
         ctx.traces += len(events)
     ctx.evaluations += len(inputs) * 10 * 2
